@@ -84,6 +84,8 @@ type WorkerStats struct {
 	Samples    []json.RawMessage `json:"samples"`
 	Seeds      []uint64          `json:"seeds"`
 	Known      map[string]uint64 `json:"known"`
+	SlowMs     int64             `json:"slow_ms"`
+	SlowCase   json.RawMessage   `json:"slow_case,omitempty"`
 }
 
 type FoundViolation struct {
@@ -172,7 +174,11 @@ func runWorker(t *testing.T) {
 				// if badger aborts the process inside this run, the parent finds the case here
 				_ = os.WriteFile(*fOut+".cur", c.JSON(), 0o644)
 			}
+			t0 := time.Now()
 			out := execCase(t, s, c, false)
+			if ms := time.Since(t0).Milliseconds(); ms > st.SlowMs {
+				st.SlowMs, st.SlowCase = ms, c.JSON()
+			}
 			if failing {
 				st.ShrinkRuns++
 			} else {
@@ -207,6 +213,9 @@ func runWorker(t *testing.T) {
 			} else if out.Viol != nil {
 				// a rule of another property fired; note it, keep going
 				st.Violations = append(st.Violations, FoundViolation{Viol: *out.Viol, Seed: rseed, Other: true})
+				if d := os.Getenv("VERIF_KEEP_OTHER"); d != "" {
+					_ = os.WriteFile(filepath.Join(d, fmt.Sprintf("other-%s-%s-%d.json", s.Prop, out.Viol.Rule, rseed)), c.JSON(), 0o644)
+				}
 			}
 		})
 		if minFail != nil {
@@ -320,6 +329,21 @@ func runReplay(t *testing.T) {
 		os.Exit(2)
 	}
 	dg := fmt.Sprintf("%016x", out.Stats.Digest)
+	if os.Getenv("VERIF_STATS") != "" {
+		type kv struct {
+			k string
+			v uint64
+		}
+		var top []kv
+		for k, v := range out.Stats.Probes {
+			top = append(top, kv{k, v})
+		}
+		sort.Slice(top, func(i, j int) bool { return top[i].v > top[j].v || top[i].v == top[j].v && top[i].k < top[j].k })
+		if len(top) > 25 {
+			top = top[:25]
+		}
+		fmt.Printf("REPLAY-STATS steps=%d decisions=%d sim=%v checks=%d top=%v\n", out.Stats.Steps, out.Stats.Decisions, out.Stats.SimTime, out.Stats.Checks, top)
+	}
 	if out.Viol == nil {
 		fmt.Printf("REPLAY-OK no violation (digest %s)\n", dg)
 		if c.Expect != nil {
@@ -481,6 +505,25 @@ func runOrchestrate(t *testing.T) {
 	}
 	agg.DistinctNT = len(digests)
 	wall := time.Since(start).Seconds()
+	for _, r := range results {
+		if r.st != nil && r.st.SlowMs > agg.SlowMs {
+			agg.SlowMs, agg.SlowCase = r.st.SlowMs, r.st.SlowCase
+		}
+	}
+	if os.Getenv("VERIF_TIMING") != "" {
+		for i, r := range results {
+			if r.st != nil {
+				fmt.Fprintf(os.Stderr, "timing: worker %d wall=%.1fs runs=%d shrink=%d slow=%dms\n", i, r.st.WallS, r.st.Runs, r.st.ShrinkRuns, r.st.SlowMs)
+			}
+		}
+		fmt.Fprintf(os.Stderr, "timing: all workers returned after %.1fs\n", wall)
+	}
+	if agg.SlowMs > 15000 {
+		sp := filepath.Join(*fVerifDir, "bin", "slow-"+s.Prop+".json")
+		_ = os.WriteFile(sp, agg.SlowCase, 0o644)
+		fmt.Fprintf(os.Stderr, "note: slowest run took %.1fs (case kept in %s)\n", float64(agg.SlowMs)/1000, sp)
+	}
+	agg.SlowCase = nil
 
 	// classify violations
 	known := loadKnown()
